@@ -640,9 +640,13 @@ int main(int argc, char **argv)
 			open_handle(f, 1);
 			/* INIT_BEYOND_EOF is the caller's promise to extend i_size over what was allocated (fuse2fs without
 			   KEEP_SIZE, mkjournal): initialized blocks must not stay behind EOF */
-			if (!e && !ce && (fl[mode] & EXT2_FALLOCATE_INIT_BEYOND_EOF) &&
-			    !ext2fs_file_get_lsize(fh[f], &sz) && sz < (__u64) cuts[f][b])
-				e = ext2fs_file_set_size2(fh[f], cuts[f][b]);
+			if ((!e || e == EXT2_ET_BLOCK_ALLOC_FAIL) && !ce && (fl[mode] & EXT2_FALLOCATE_INIT_BEYOND_EOF) &&
+			    !ext2fs_file_get_lsize(fh[f], &sz) && sz < (__u64) cuts[f][b]) {
+				/* fuse2fs extends i_size even when the allocation ran out of space half way */
+				errcode_t e2 = ext2fs_file_set_size2(fh[f], cuts[f][b]);
+				if (!e)
+					e = e2;
+			}
 			logop("falloc", f, a, b, 0, mode, e ? e : ce, 1);
 			print_files(-1);
 		} else if (!strcmp(cmd, "flush")) {
